@@ -106,7 +106,7 @@ Proof. exact PartitionProofs.partitions_bounded. Qed.
 
 (* ---- (d) RankTree, bounded: the bound on the number of leaves is in the statement ----
    Unbounded statements (not proved; kept for reference):
-     unrank_then_rank      : forall n >= 2 (and n = 1 with s = 0), s < num_shapes n,
+     unrank_then_rank      : forall n >= 1, s < num_shapes n,
                              l < num_labellings n s: tree_rank (tree_unrank n s l) = (s,l)
      rank_then_unrank      : forall n, is_topology n t -> tree_unrank n (tree_rank t) ~ t
      all_trees_enumerates  : forall n, all_trees n lists {t | is_topology n t} once, in rank order
@@ -144,15 +144,20 @@ Theorem rank_child_order_invariant : forall t t' r,
   pt_reorder t t' -> NoDup (pt_leaves t) -> tree_rank t = Ok r -> tree_rank t' = Ok r.
 Proof. exact ChildOrderProofs.rank_child_order_invariant. Qed.
 
-(* ---- (e) out-of-range ranks: F13 ---- *)
-Theorem unrank_oor_n1_refuted :
+(* ---- (e) out-of-range ranks ----
+   F13 was repaired in /repo by commit 7829e32; the model follows the repaired code.
+   Historical record about the PINNED (pre-fix) variant of children_shape_ranks: it accepted
+   every shape rank for n = 1, the current model rejects them. *)
+Theorem unrank_oor_n1_pinned_refuted :
   exists s, num_shapes 1 = Ok 1 /\ s >= 1 /\
-            tree_unrank 1 s 0 = Ok (PL 0) /\ tree_rank (PL 0) = Ok (0, 0).
-Proof. exact unrank_oor_n1_refuted_w. Qed.
+            children_shape_ranks_pinned s 1 = Ok ([], []) /\
+            children_shape_ranks s 1 = Err E_RANK /\
+            tree_unrank 1 s 0 = Err E_RANK.
+Proof. exact unrank_oor_n1_pinned_refuted_w. Qed.
 
-(* for every n >= 2 an out-of-range shape rank is rejected (unbounded in n, s, l) *)
+(* for every n >= 1 an out-of-range shape rank is rejected (unbounded in n, s, l) *)
 Theorem unrank_oor_shape_rejected : forall n nS s l,
-  2 <= n -> num_shapes n = Ok nS -> nS <= s -> 0 <= nS -> 0 <= l ->
+  1 <= n -> num_shapes n = Ok nS -> nS <= s -> 0 <= nS -> 0 <= l ->
   tree_unrank n s l = Err E_RANK.
 Proof. exact tree_unrank_shape_oor. Qed.
 
@@ -168,11 +173,11 @@ Theorem unrank_oor_label_rejected : forall n s l sh,
 Proof. exact tree_unrank_label_oor. Qed.
 
 (* num_shapes is defined for every n, so the rejection of out-of-range shape ranks is
-   unconditional for every n >= 2 *)
+   unconditional for every n >= 1 *)
 Theorem num_shapes_defined : forall n, exists v, num_shapes n = Ok v /\ (0 <= n -> 0 <= v).
 Proof. exact num_shapes_total. Qed.
 
-Theorem unrank_oor_shape_rejected_all : forall n, 2 <= n ->
+Theorem unrank_oor_shape_rejected_all : forall n, 1 <= n ->
   exists nS, num_shapes n = Ok nS /\
     forall s l, nS <= s -> 0 <= l -> tree_unrank n s l = Err E_RANK.
 Proof. exact unrank_oor_shape_rejected_total. Qed.
